@@ -88,3 +88,10 @@ Theorem c18_angle_ratio_sources_are_direct :
   forallb (fun e => negb (String.eqb (dl_file e) "src/si/angle.rs" || String.eqb (dl_file e) "src/si/ratio.rs") || deleg_ok e) src_delegations = true
   /\ covers src_delegations "src/si/angle.rs" ("atan2"%string :: angle_fns) && covers src_delegations "src/si/ratio.rs" (ratio_to_angle ++ ratio_to_ratio) = true.
 Proof. split; vm_compute; reflexivity. Qed.
+
+(* ---- "sin of 90 degrees, of a quarter revolution and of pi/2 rad agree" needs the angle units to be the fractions of a turn their
+   names say: on the regenerated tables, revolution = 2 pi, degree = pi/180, gon = pi/200, mil = pi/3200, minute = pi/10800,
+   second = pi/648000 rad; spat = 4 pi sr and the square degree / minute / second are the squares (relative 5e-7: the mil is a 7-digit rounding) ---- *)
+From UomV Require Import Spec.Names Spec.Anchors Spec.C05Defs.
+Theorem c18_angle_units_are_fractions_of_a_turn : forallb anchor_seven turn_anchors = true.
+Proof. vm_compute. reflexivity. Qed.
